@@ -3,7 +3,7 @@
    is not proved is stated as [C09_full] (Definition) and named below.                           *)
 From Coq Require Import ZArith Reals List.
 From FF Require Import Base.Ops Inst.RInst Base.RAlg Base.FMat Model.Numeric Model.Decay Model.Cumulant
-     Model.Tie.C09 Proofs.Trapz Proofs.TraceId Proofs.PauliEx Proofs.CumulantAlg Proofs.CumulantPauli Proofs.CumulantLabel.
+     Model.Tie.C09 Proofs.Trapz Proofs.TraceId Proofs.PauliOnb Proofs.CumulantAlg Proofs.CumulantPauli Proofs.CumulantLabel.
 From FF Require Model.Consts Inst.Param Corr.Agree Corr.Obs Corr.ObsC08.
 Import ListNotations.
 Local Open Scope R_scope.
@@ -28,38 +28,54 @@ Theorem C09_model_traces : forall d (basis : list MatR) i j k l,
 Proof. exact a4get_four_traces. Qed.
 Print Assumptions C09_model_traces.
 
-(* shortcut vs general branch on the normalised Pauli basis, all Gamma, Delta, first and second order:
-   the shortcut is the general formula applied to the TRANSPOSED decay amplitudes *)
-Theorem C09_shortcut_general_transposed : forall second (G D : RMr) i j, (i < 4)%nat -> (j < 4)%nat ->
-  rmget RO (cumulant_general RO 4 (four_traces_arr RO 2 (pair_products RO 2 pauli_basis) 4) second G D) i j =
-  rmget RO (cumulant_shortcut RO 4 second (rm_transpose 4 G) D) i j.
-Proof. exact shortcut_general_transposed. Qed.
-Print Assumptions C09_shortcut_general_transposed.
-(* shortcut_eq_general under the symmetry hypothesis the proof needs (auto-correlations) *)
-Theorem C09_shortcut_eq_general : forall second (G D : RMr) i j, (i < 4)%nat -> (j < 4)%nat -> rm_symmetric 4 G ->
+(* shortcut_eq_general: on the normalised Pauli basis the d = 2 shortcut (after fix 72be0f3) equals the
+   general branch for ALL Gamma, Delta, first and second order *)
+Theorem C09_shortcut_eq_general : forall second (G D : RMr) i j, (i < 4)%nat -> (j < 4)%nat ->
   rmget RO (cumulant_shortcut RO 4 second G D) i j =
   rmget RO (cumulant_general RO 4 (four_traces_arr RO 2 (pair_products RO 2 pauli_basis) 4) second G D) i j.
 Proof. exact shortcut_eq_general. Qed.
 Print Assumptions C09_shortcut_eq_general.
-(* ... and without it: REFUTED (finding: cross-correlated spectra, d = 2 Pauli/GGM basis) *)
-Theorem C09_shortcut_cross_refuted :
+(* the pre-fix shortcut (untransposed off-diagonal block) is the formula applied to Gamma^T ... *)
+Theorem C09_shortcut_prefix_general_transposed : forall second (G D : RMr) i j, (i < 4)%nat -> (j < 4)%nat ->
+  cumulant_shortcut_prefix_fn 4 second G D i j =
+  rmget RO (cumulant_general RO 4 (four_traces_arr RO 2 (pair_products RO 2 pauli_basis) 4) second (rm_transpose 4 G) D) i j.
+Proof. exact shortcut_prefix_general_transposed. Qed.
+(* ... equal to the formula for symmetric Gamma (auto-correlations) ... *)
+Theorem C09_shortcut_prefix_eq_general_symmetric : forall second (G D : RMr) i j, (i < 4)%nat -> (j < 4)%nat -> rm_symmetric 4 G ->
+  cumulant_shortcut_prefix_fn 4 second G D i j =
+  rmget RO (cumulant_general RO 4 (four_traces_arr RO 2 (pair_products RO 2 pauli_basis) 4) second G D) i j.
+Proof. exact shortcut_prefix_eq_general_symmetric. Qed.
+(* ... and REFUTED without the symmetry (fixed defect: cross-correlated spectra / pulse-correlation pairs) *)
+Theorem C09_shortcut_prefix_cross_refuted :
   exists (G D : RMr) i j, (i < 4)%nat /\ (j < 4)%nat /\
-    rmget RO (cumulant_shortcut RO 4 false G D) i j <>
+    cumulant_shortcut_prefix_fn 4 false G D i j <>
     rmget RO (cumulant_general RO 4 (four_traces_arr RO 2 (pair_products RO 2 pauli_basis) 4) false G D) i j.
-Proof. exact shortcut_cross_refuted. Qed.
-Print Assumptions C09_shortcut_cross_refuted.
+Proof. exact shortcut_prefix_cross_refuted. Qed.
+Print Assumptions C09_shortcut_prefix_cross_refuted.
 
-(* shortcut_guard: the shortcut is selected by the label; REFUTED as "independent of the basis-type
-   label" (finding: non-traceless custom d = 2 basis labelled 'Pauli') *)
-Theorem C09_label_refuted :
+(* shortcut_guard (after fix 63446ae): whatever the label, on a basis that IS Basis.pauli(1) both branches agree *)
+Theorem C09_shortcut_guard_sound : forall (basis : list MatR) second (G D : RMr) i j,
+  is_pauli1 basis -> (i < 4)%nat -> (j < 4)%nat ->
+  rmget RO (nth 0 (cumulant_function RO 2 true 4 basis second [G] [D]) []) i j =
+  rmget RO (nth 0 (cumulant_function RO 2 false 4 basis second [G] [D]) []) i j.
+Proof. exact shortcut_guard_sound. Qed.
+Print Assumptions C09_shortcut_guard_sound.
+Theorem C09_guard_requires_basis : forall d bt, use_shortcut d bt false = false.
+Proof. exact guard_requires_basis. Qed.
+Example C09_is_pauli1_satisfiable : is_pauli1 pauli_basis.
+Proof. split. reflexivity. intros k Hk. reflexivity. Qed.
+(* the pre-fix guard trusted the label: REFUTED (fixed defect: non-traceless custom d = 2 basis labelled 'Pauli') *)
+Theorem C09_label_prefix_refuted :
   exists (basis : list MatR) (G D : RMr) i j,
     let n := length basis in let Cb := fun k => toF (nthm basis k) in
     basis_herm 2 n Cb /\ basis_orthonormal 2 n Cb /\ basis_complete 2 n Cb /\
-    use_shortcut 2 BPauli = true /\ (i < n)%nat /\ (j < n)%nat /\
-    rmget RO (nth 0 (cumulant_function RO 2 (use_shortcut 2 BPauli) n basis false [G] [D]) []) i j <>
+    use_shortcut_prefix 2 BPauli = true /\ (i < n)%nat /\ (j < n)%nat /\
+    rmget RO (nth 0 (cumulant_function RO 2 (use_shortcut_prefix 2 BPauli) n basis false [G] [D]) []) i j <>
     rmget RO (nth 0 (cumulant_function RO 2 false n basis false [G] [D]) []) i j.
-Proof. exact label_refuted. Qed.
-Print Assumptions C09_label_refuted.
+Proof. exact label_prefix_refuted. Qed.
+Print Assumptions C09_label_prefix_refuted.
+Theorem C09_mislabelled_basis_rejected : ~ is_pauli1 nt_basis.
+Proof. exact nt_basis_is_not_pauli1. Qed.
 
 (* second_order_antisymmetric (any trace tensor) *)
 Theorem C09_second_order_antisymmetric : forall n (Tr : nat -> nat -> nat -> nat -> Cx) (D : RMr) i j,
